@@ -861,6 +861,13 @@ fn r_tree(rng: &mut Rng, depth: usize, utils: &[String]) -> RNode {
 fn r_rel(rng: &mut Rng, depth: usize, utils: &[String]) -> RNode {
   let op = *rng.pick(&["has", "has", "inside", "inside", "follows", "precedes"]);
   let stop = *rng.pick(&["end", "end", "neighbor"]);
+  // sibling relations with `stopBy: end` scan all siblings: nesting them inside each other makes
+  // matching cubic and worse on large documents, which says nothing about the properties and
+  // would only trip the hang watchdog; their operand is therefore an atom
+  if matches!(op, "follows" | "precedes") {
+    let _ = utils;
+    return RNode::Rel(op, stop, Box::new(r_atom(rng, &[])));
+  }
   RNode::Rel(op, stop, Box::new(r_tree(rng, depth, utils)))
 }
 
